@@ -219,8 +219,11 @@ def classify(ck: Check, hists, which: str):
                         {**replay, 'broken': 'correspondence circ views'},
                         found_input=False)
                 break
-            if bad04 or bad05:
+            if bad04 or (bad05 and which == 'C05'):
                 break   # the other property's business; history is off
+            # which == 'C04' and only derived views differ: the grids still
+            # agree, so the history continues (a stale view shows up as a
+            # program-order difference a few calls later)
         else:
             continue
 
